@@ -104,6 +104,10 @@ func genSyn(t *rapid.T) SynCase {
 type SeqCase struct {
 	First  SynCase `json:"first"`
 	Second SynCase `json:"second"`
+	// SameArray (eighth seed batch): the second list is written into the slice that held the first one (a caller that
+	// unifies author aliases or refills a buffer): same backing array; when the lists are equally long and end in the
+	// same hash also the same length and last revision
+	SameArray bool `json:"sameArray,omitempty"`
 }
 
 func genSeq(t *rapid.T) SeqCase {
@@ -113,6 +117,36 @@ func genSeq(t *rapid.T) SeqCase {
 	// now and then the second list carries the same abbreviated hashes as the first one
 	if rapid.IntRange(0, 2).Draw(t, "sameHashes") == 2 {
 		reuse(c.First, &c.Second)
+	}
+	if rapid.IntRange(0, 3).Draw(t, "sameArray") == 3 {
+		c.SameArray = true
+		if rapid.Bool().Draw(t, "editedInPlace") && len(c.First.Commits) > 0 {
+			// the second list is the first one with a few entries edited: an author renamed everywhere, a date moved,
+			// a change turned into a deletion or given other counts
+			c.Second = SynCase{Commits: append([]SynCommit(nil), c.First.Commits...)}
+			for k := rapid.IntRange(1, 3).Draw(t, "inPlaceEdits"); k > 0; k-- {
+				i := rapid.IntRange(0, len(c.Second.Commits)-1).Draw(t, "editedCommit")
+				sc := c.Second.Commits[i]
+				sc.Changes = append([]SynChange(nil), sc.Changes...)
+				switch rapid.IntRange(0, 2).Draw(t, "editKind") {
+				case 0:
+					// this one commit gets an author nobody else is: every file it touches has one author more
+					sc.Author = sc.Author + " (" + fmt.Sprint(i) + ")"
+				case 1:
+					// every commit a day earlier than any date of the first list: the age of every file changes
+					for j := range c.Second.Commits {
+						c.Second.Commits[j].Date = "1999-01-" + fmt.Sprintf("%02d", 1+j%28)
+					}
+					sc.Date = "1999-01-" + fmt.Sprintf("%02d", 1+i%28)
+				default:
+					if len(sc.Changes) > 0 {
+						j := rapid.IntRange(0, len(sc.Changes)-1).Draw(t, "editedChange")
+						sc.Changes[j].Added += 3
+					}
+				}
+				c.Second.Commits[i] = sc
+			}
+		}
 	}
 	return c
 }
@@ -387,7 +421,14 @@ func render(msgs []git.CommitMessage) string {
 	return sb.String()
 }
 
+// shareInput: the summaries are handed the caller's slice itself, not a copy of it (set by checkSeq for the cases
+// whose second list lives in the first list's array: what a summary keeps about "the list at this address" shows)
+var shareInput bool
+
 func copyMessages(msgs []git.CommitMessage) []git.CommitMessage {
+	if shareInput {
+		return msgs
+	}
 	out := make([]git.CommitMessage, len(msgs))
 	for i, m := range msgs {
 		out[i] = m
@@ -775,12 +816,27 @@ func checkSyn(c SynCase) pbt.Verdict {
 // of that list (the statement speaks of every parsed history, not of the first one of a process).
 func checkSeq(c SeqCase) pbt.Verdict {
 	git.VerifResetGit()
-	if v := judge(c.First, messages(c.First)); v.Violation != "" {
+	shareInput = c.SameArray
+	defer func() { shareInput = false }()
+	first := messages(c.First)
+	if v := judge(c.First, first); v.Violation != "" {
 		v.Violation = "first commit list: " + v.Violation
 		return v
 	}
-	v := judge(c.Second, messages(c.Second))
+	second := messages(c.Second)
+	if c.SameArray {
+		// the same backing array: the second list overwrites the first one
+		if len(second) <= cap(first) {
+			buf := first[:len(second)]
+			copy(buf, second)
+			second = buf
+		}
+	}
+	v := judge(c.Second, second)
 	if v.Violation != "" {
+		if c.SameArray {
+			v.Violation = "(the second list was written into the slice that held the first one) " + v.Violation
+		}
 		v.Violation = "second commit list, summarised after another list in the same process: " + v.Violation + "-- the list summarised before --\n" + render(messages(c.First))
 	}
 	raw, _ := json.Marshal(c)
